@@ -153,6 +153,7 @@ func (c15) Run(e *Env) {
 	}
 	if e.C.xStr("domain") != "seq" {
 		time.Sleep(c15ClockShift)
+		e.SimSkip = c15ClockShift
 	}
 	if err := e.Setup(); err != nil {
 		e.R.Infra = "setup: " + err.Error()
